@@ -115,6 +115,8 @@ theorem touch_graphs (k : Kind) (M : PM) (m : Nat) : (touch k M m).graphs = M.gr
   unfold touch; split <;> rfl
 theorem touch_qdict (k : Kind) (M : PM) (m : Nat) : (touch k M m).qdict = M.qdict := by
   unfold touch; split <;> rfl
+theorem touch_ident (k : Kind) (M : PM) (m : Nat) : (touch k M m).identHeld = M.identHeld := by
+  unfold touch; split <;> rfl
 
 theorem find_held_map (ρ : Nat → Nat) (hρ : Inj ρ) (held : List Nat) :
     ∀ cs : List Nat, (cs.map ρ).find? (fun l => decide (l ∈ held.map ρ)) =
@@ -147,6 +149,7 @@ structure Sim (k : Kind) (ρ : Nat → Nat) (M M' : PM) : Prop where
       legitimately (an async original shows no active state after a transition, its copy does) -/
   graphs : k.graph = true → ∀ m ∈ M.models, (alookup (ρ m) M'.graphs).isNone = (alookup m M.graphs).isNone
   qdict : k.qmodel = true → ∀ m ∈ M.models, (alookup (ρ m) M'.qdict).isNone = (alookup m M.qdict).isNone
+  ident : k.locked = true → M'.identHeld = M.identHeld
 
 theorem agree_aset {β} (ρ : Nat → Nat) (hρ : Inj ρ) (S : List Nat) (T T' : Tab β) (m : Nat) (v : β)
     (h : ∀ x ∈ S, alookup (ρ x) T' = alookup x T) :
@@ -176,6 +179,7 @@ theorem sim_touch {k ρ M M'} (h : Sim k ρ M M') (m : Nat) : Sim k ρ (touch k 
     rw [lookupD_touch, lookupD_touch]; exact h.ctx h1 x hx
   graphs := by rw [touch_models, touch_graphs, touch_graphs]; exact h.graphs
   qdict := by rw [touch_models, touch_qdict, touch_qdict]; exact h.qdict
+  ident := by intro hl; rw [touch_ident, touch_ident]; exact h.ident hl
 
 theorem contexts_sim {k ρ M M'} (h : Sim k ρ M M') (m : Nat) (hm : m ∈ M.models) :
     contexts k M' (ρ m) = (contexts k M m).map ρ := by
@@ -183,11 +187,16 @@ theorem contexts_sim {k ρ M M'} (h : Sim k ρ M M') (m : Nat) (hm : m ∈ M.mod
   cases h1 : k.locked with
   | false => simp
   | true =>
-    cases h2 : k.nested with
-    | true =>
-      simp only [if_true, h.ctx h1 m hm, h.mctx, List.isEmpty_map]
-      split <;> rfl
-    | false => simp [h.ctx h1 m hm]
+    simp only [if_true, h.ident h1]
+    cases hi : M.identHeld with
+    | true => simp
+    | false =>
+      simp only [Bool.false_eq_true, if_false]
+      cases h2 : k.nested with
+      | true =>
+        simp only [if_true, h.ctx h1 m hm, h.mctx, List.isEmpty_map]
+        split <;> rfl
+      | false => simp [h.ctx h1 m hm]
 
 theorem stateOf_sim {k ρ M M'} (h : Sim k ρ M M') (m : Nat) (hm : m ∈ M.models) :
     M'.stateOf (ρ m) = M.stateOf m := by
@@ -216,7 +225,7 @@ theorem sim_fire {k ρ M M'} (δ : Delta) (hρ : Inj ρ) (h : Sim k ρ M M') (cs
         cases hg : k.graph with
         | false =>
           simp only [Bool.false_eq_true, if_false]
-          refine ⟨rfl, ⟨h.models, h.mctx, agree_aset ρ hρ _ _ _ m dst h.mstate, h.ctx, ?_, h.qdict⟩⟩
+          refine ⟨rfl, ⟨h.models, h.mctx, agree_aset ρ hρ _ _ _ m dst h.mstate, h.ctx, ?_, h.qdict, h.ident⟩⟩
           intro hg'; rw [hg] at hg'; cases hg'
         | true =>
           have hgr := h.graphs hg m hm
@@ -226,7 +235,7 @@ theorem sim_fire {k ρ M M'} (δ : Delta) (hρ : Inj ρ) (h : Sim k ρ M M') (cs
           | false =>
             simp only [Bool.false_eq_true, if_false]
             exact ⟨rfl, ⟨h.models, h.mctx, agree_aset ρ hρ _ _ _ m dst h.mstate, h.ctx,
-              fun _ => agree_aset_isNone ρ hρ _ _ _ m _ (h.graphs hg), h.qdict⟩⟩
+              fun _ => agree_aset_isNone ρ hρ _ _ _ m _ (h.graphs hg), h.qdict, h.ident⟩⟩
   | false =>
     simp only [Bool.false_and, Bool.false_eq_true, if_false]
     cases hd : δ ep (M.stateOf m) ev with
@@ -235,7 +244,7 @@ theorem sim_fire {k ρ M M'} (δ : Delta) (hρ : Inj ρ) (h : Sim k ρ M M') (cs
       cases hg : k.graph with
       | false =>
         simp only [Bool.false_eq_true, if_false]
-        refine ⟨rfl, ⟨h.models, h.mctx, agree_aset ρ hρ _ _ _ m dst h.mstate, h.ctx, ?_, h.qdict⟩⟩
+        refine ⟨rfl, ⟨h.models, h.mctx, agree_aset ρ hρ _ _ _ m dst h.mstate, h.ctx, ?_, h.qdict, h.ident⟩⟩
         intro hg'; rw [hg] at hg'; cases hg'
       | true =>
         have hgr := h.graphs hg m hm
@@ -245,7 +254,7 @@ theorem sim_fire {k ρ M M'} (δ : Delta) (hρ : Inj ρ) (h : Sim k ρ M M') (cs
         | false =>
           simp only [Bool.false_eq_true, if_false]
           exact ⟨rfl, ⟨h.models, h.mctx, agree_aset ρ hρ _ _ _ m dst h.mstate, h.ctx,
-            fun _ => agree_aset_isNone ρ hρ _ _ _ m _ (h.graphs hg), h.qdict⟩⟩
+            fun _ => agree_aset_isNone ρ hρ _ _ _ m _ (h.graphs hg), h.qdict, h.ident⟩⟩
 
 theorem sim_trigger {k ρ M M'} (δ : Delta) (hρ : Inj ρ) (h : Sim k ρ M M') (held : List Nat) (ep m ev : Nat)
     (hm : m ∈ M.models) :
@@ -285,7 +294,7 @@ theorem sim_step {k ρ M M'} (δ : Delta) (hρ : Inj ρ) (h : Sim k ρ M M') (he
     | false => simpa using h
     | true =>
       simp only [if_true]
-      refine ⟨h.models, h.mctx, h.mstate, h.ctx, ?_, h.qdict⟩
+      refine ⟨h.models, h.mctx, h.mstate, h.ctx, ?_, h.qdict, h.ident⟩
       intro _ m hm
       have hm' : m ∈ M.models := hm
       rw [alookup_regen, alookup_regen, h.models]
@@ -361,6 +370,10 @@ theorem roundtrip_models (k : Kind) (ρ : Nat → Nat) (M : PM) :
     (roundtrip k ρ M).models = M.models.map ρ ∧ (roundtrip k ρ M).mctx = M.mctx.map ρ :=
   ⟨(roundtrip_base k ρ M).1.trans (base_fields k ρ M).1, (roundtrip_base k ρ M).2.1.trans (base_fields k ρ M).2.1⟩
 
+theorem roundtrip_ident (k : Kind) (ρ : Nat → Nat) (M : PM) : (roundtrip k ρ M).identHeld = false := by
+  unfold roundtrip setstate getstate baseSetstate baseGetstate
+  cases k.graph <;> cases k.locked <;> cases k.qmodel <;> rfl
+
 theorem roundtrip_stateOf (k : Kind) (ρ : Nat → Nat) (hρ : Inj ρ) (M : PM) (m : Nat) :
     (roundtrip k ρ M).stateOf (ρ m) = M.stateOf m := by
   unfold PM.stateOf
@@ -421,23 +434,28 @@ theorem graph_graphs (k : Kind) (hg : k.graph = true) (ρ : Nat → Nat) (hρ : 
   simp only [Option.map_id'] at h2
   simp only [Function.comp, PM.stateOf, hb.2.2, h2]
 
+/-- the copy simulates the original AT REST (`quiesce M`): the event in progress while the snapshot was
+    taken (if any) is not part of the machine -/
 theorem roundtrip_sim (k : Kind) (hk : k.predefined = true) (ρ : Nat → Nat) (hρ : Inj ρ) (M : PM) (hwf : WF k M) :
-    Sim k ρ M (roundtrip k ρ M) where
+    Sim k ρ (quiesce M) (roundtrip k ρ M) where
   models := (roundtrip_models k ρ M).1
   mctx := (roundtrip_models k ρ M).2
   mstate := by
     intro m _
+    show alookup (ρ m) (roundtrip k ρ M).mstate = alookup m M.mstate
     rw [roundtrip_mstate]
     have := alookup_map_key ρ hρ (fun s : Nat => s) m M.mstate
     simpa only [Option.map_id'] using this
   ctx := by
     intro hl m hm
+    show lookupD (ρ m) (roundtrip k ρ M).ctx = (lookupD m M.ctx).map ρ
     rw [locked_ctx k hl ρ hρ M]
     unfold lookupD
     rw [alookup_of_list ρ hρ (fun x => ((alookup x M.ctx).getD []).map ρ) m M.models hm]
     rfl
   graphs := by
     intro hg m hm
+    show (alookup (ρ m) (roundtrip k ρ M).graphs).isNone = (alookup m M.graphs).isNone
     rw [graph_graphs k hg ρ hρ M, alookup_of_list ρ hρ (fun x => M.stateOf x + 1) m M.models hm]
     have := hwf.1 hg m hm
     cases hl : alookup m M.graphs with
@@ -450,11 +468,13 @@ theorem roundtrip_sim (k : Kind) (hk : k.predefined = true) (ρ : Nat → Nat) (
       | false => rfl
       | true =>
         cases ha : k.asyncio <;> simp [Kind.predefined, hl, hq, ha] at hk
+    show (alookup (ρ m) (roundtrip k ρ M).qdict).isNone = (alookup m M.qdict).isNone
     rw [async_qdict k hl hq ρ M, alookup_of_list ρ hρ (fun x => lookupD x M.qdict) m M.models hm]
     have := hwf.2 hq m hm
     cases hx : alookup m M.qdict with
     | none => rw [hx] at this; cases this
     | some _ => rfl
+  ident := fun _ => roundtrip_ident k ρ M
 
 /-! ### locks -/
 
@@ -475,13 +495,16 @@ theorem contexts_sub (k : Kind) (M : PM) (m l : Nat) (h : l ∈ contexts k M m) 
   cases hl : k.locked with
   | false => simp [hl] at h
   | true =>
-    cases hn : k.nested with
-    | true =>
-      simp only [hl, hn, if_true] at h
-      split at h
-      · exact Or.inl h
-      · exact Or.inr (lookupD_sub m l _ h)
-    | false => simp [hl, hn] at h; exact Or.inr (lookupD_sub m l _ h)
+    cases hi : M.identHeld with
+    | true => simp [hl, hi] at h
+    | false =>
+      cases hn : k.nested with
+      | true =>
+        simp only [hl, hn, hi, if_true, Bool.false_eq_true, if_false] at h
+        split at h
+        · exact Or.inl h
+        · exact Or.inr (lookupD_sub m l _ h)
+      | false => simp [hl, hn, hi] at h; exact Or.inr (lookupD_sub m l _ h)
 
 theorem trigger_unheld (k : Kind) (δ : Delta) (held : List Nat) (M : PM) (ep m ev : Nat)
     (h : ∀ l ∈ lockIds M, l ∉ held) : trigger k δ held M ep m ev = trigger k δ [] M ep m ev := by
